@@ -6,6 +6,8 @@
    model's parser is proved to meet the hypotheses). *)
 From Coq Require Import List NArith Bool Arith.
 From TT Require Import Lib.BytesL Model.Forwarded Generated.ForwardedFacts Proofs.ForwardedProofs Model.H3Stream Proofs.H3StreamProofs.
+From TT Require Import Generated.Http1Facts Model.Http1Wire Spec.Rfc9112 Proofs.Http1WireProofs.
+From TT Require Import Model.HopByHop Proofs.HopByHopProofs.
 Import ListNotations.
 Local Open Scope nat_scope.
 
@@ -119,6 +121,44 @@ Example ex_fin_first_loses_the_response :
   /\ lost (h3run true false [ClientFin; Respond 200; Respond 1]) = [200%N; 1%N]
   /\ delivered (h3run true true [ClientFin; Respond 200; Respond 1]) = [200%N; 1%N].
 Proof. repeat split; reflexivity. Qed.
+
+(* the request head written towards the origin (encode_request): for every method and target without blank or line break,
+   every authority and header list as the http crate holds them, the bytes are read back under the RFC 9112 grammar as exactly
+   that method, target, version and header list - the authority first, as the Host field - and the reading ends where the
+   body starts *)
+Theorem origin_request_head_is_well_formed :
+  (forall method target minor hs rest,
+     (minor < 10)%N -> no_byte 32 method = true -> no_cr method = true -> no_byte 32 target = true -> no_cr target = true ->
+     forallb hdr_ok hs = true ->
+     read_request (S (length hs)) (enc_request method target minor None hs ++ rest) =
+     Some ({| rq_method := method; rq_target := target; rq_minor := minor;
+              rq_headers := map (fun h => (fst h, trim_ows (snd h))) hs |}, rest))
+  /\ (forall method target minor host hs,
+        enc_request method target minor (Some host) hs = enc_request method target minor None (([72; 111; 115; 116]%N, host) :: hs))
+  /\ HTTP1_HEAD_WRITERS_AS_MODELLED = true.
+Proof.
+  split; [exact request_round_trip_proof|]. split; [exact request_with_host_proof|exact eq_refl].
+Qed.
+Print Assumptions origin_request_head_is_well_formed.
+
+(* "headers minus hop-by-hop ones": for every list of response fields, in whatever order the origin sent them, the fields
+   handed on to the client are exactly the end-to-end ones, in the origin's order - Connection, the fields any Connection field
+   names, Proxy-Connection, Keep-Alive, Upgrade and (when the chunked framing is removed for an HTTP/2 or HTTP/3 client) the
+   framing fields are gone, everything else is kept *)
+Theorem response_fields_minus_hop_by_hop :
+  forall dechunked hs, convert FWD_HOP_BY_HOP_WHEREVER_THEY_STAND dechunked hs = end_to_end dechunked hs.
+Proof. exact convert_is_end_to_end_proof. Qed.
+Print Assumptions response_fields_minus_hop_by_hop.
+
+(* as found (fields collected while handing on): "X-Hop: 1" before "Connection: X-Hop" got through, and so did a
+   Content-Length standing before the Transfer-Encoding of a response whose framing is removed *)
+Example ex_as_found_order_mattered :
+  let x_hop := [120; 45; 104; 111; 112]%N in
+  convert false false [(x_hop, [49]%N); (n_connection, x_hop)] = [(x_hop, [49]%N)]
+  /\ convert true false [(x_hop, [49]%N); (n_connection, x_hop)] = []
+  /\ convert false true [(n_cl, [53]%N); (n_te, [99; 104; 117; 110; 107; 101; 100]%N)] = [(n_cl, [53]%N)]
+  /\ convert true true [(n_cl, [53]%N); (n_te, [99; 104; 117; 110; 107; 101; 100]%N)] = [].
+Proof. vm_compute. repeat split. Qed.
 
 Theorem code_facts :
   FWD_CHUNK_DATA_COUNTS_ACCEPTED_AND_KEEPS_STATE = true /\ FWD_NON_ENCODED_COUNTS_ACCEPTED = true
